@@ -8,6 +8,7 @@ later point is explored recursively.  Optionally bounded by the number of preemp
 """
 from __future__ import annotations
 
+import gc
 import threading
 from typing import Callable, Optional
 
@@ -113,6 +114,16 @@ def explore(make_world: Callable[[], tuple], judge: Callable[[object, 'Run'], No
             judge(world, run)
         finally:
             hook_setter(None)
+            # objects of this execution must not outlive it: a traceback kept in run.errors holds the frames (and through
+            # them the library objects) of the threads, whose finalisers would otherwise run during the NEXT execution
+            for exc in run.errors:
+                if exc is not None:
+                    exc.__traceback__ = None
+                    exc.__context__ = None
+                    exc.__cause__ = None
+            run.bodies = []
+            bodies = None
+            gc.collect()
             cleanup(world)
         stats['schedules'] += 1
         stats['max_points'] = max(stats['max_points'], len(run.choices))
